@@ -1,6 +1,7 @@
 package props
 
 import (
+	"strings"
 	"sync"
 
 	"verif/alpha"
@@ -44,7 +45,7 @@ var (
 )
 
 func lenFamilySQL() []string {
-	lenSQLOnce.Do(func() { lenSQL = alpha.LenSQL() })
+	lenSQLOnce.Do(func() { lenSQL = append(alpha.LenSQL(), alpha.LenSQL2()...) })
 	return lenSQL
 }
 
@@ -55,7 +56,7 @@ func lenFamilyHTML() []string {
 		for _, e := range hEvents {
 			ev = append(ev, e.Name)
 		}
-		lenHTML = alpha.LenHTML(ev)
+		lenHTML = append(alpha.LenHTML(ev), alpha.LenHTML2()...)
 	})
 	return lenHTML
 }
@@ -73,8 +74,14 @@ func sqlExtraPhases(eval func(w *fw.W, s, aux string), heavy bool) []fw.Phase {
 			Run: func(w *fw.W) { w.Trie(alpha.S3lit, 1, d(w, 2, 3)) }, Eval: eval},
 		{Name: "from-prefix-states", Space: "14 prefixes that put the scanner / cascade into a non-initial situation x S3^<=1..2 (quick) / <=2..3 (thorough)", Share: 3,
 			Run: func(w *fw.W) { prefixed(w, alpha.SQLPrefixes, alpha.S3, d(w, 1, 2)) }, Eval: eval},
-		{Name: "length-boundaries", Space: "tokens of every class with lengths 1..40 x 4 tails; pairs of word-like tokens with length sums 28..36", Share: 1,
+		{Name: "length-boundaries", Space: "tokens of every class with lengths 1..40 and around 64/128/256 x 4 tails; pairs of word-like tokens with length sums 28..36; dollar tags of length 1..70; word length x total length windows", Share: 1,
 			Run: func(w *fw.W) { list(w, lenFamilySQL()) }, Eval: eval},
+		{Name: "five-token-patterns", Space: "the four 5-token special patterns with every slot filled by each token that is or becomes the required class (IN, backslash, USER, empty back-tick ...) x continuations of <=2 tokens", Share: 1,
+			Run: func(w *fw.W) { list(w, special5Late()) }, Eval: eval},
+		{Name: "byte-sweep", Space: "every byte value 0..255 at each syntactic position of 28 canonical statements", Share: 1,
+			Run: func(w *fw.W) { list(w, alpha.ByteSweepSQL()) }, Eval: eval},
+		{Name: "count-sweep", Space: "4 attacks preceded by k copies of each of 6 units for every k in 0..300", Share: 1,
+			Run: func(w *fw.W) { list(w, alpha.CountSweepSQL()) }, Eval: eval},
 	}
 }
 
@@ -89,7 +96,64 @@ func htmlExtraPhases(eval func(w *fw.W, s, aux string), heavy bool) []fw.Phase {
 	return []fw.Phase{
 		{Name: "from-prefix-states", Space: "17 prefixes that put the tokenizer into a non-initial state (inside an end tag, after a quoted value, after '/') x H2^<=2..3 (quick) / <=3..4 (thorough)", Share: 3,
 			Run: func(w *fw.W) { prefixed(w, alpha.HTMLPrefixes, alpha.H2, d(w, 2, 3)) }, Eval: eval},
-		{Name: "length-boundaries", Space: "names NUL-padded with 0..64 NULs, URL values with 0..1000 junk bytes / zero digits before the scheme", Share: 1,
+		{Name: "length-boundaries", Space: "names NUL-padded with 0..64 NULs, names of every length 1..70 with a rune that grows when upper-cased, names/values around 64/128/256 bytes, URL values with 0..1000 junk bytes / zero digits before the scheme", Share: 1,
 			Run: func(w *fw.W) { list(w, lenFamilyHTML()) }, Eval: eval},
+		{Name: "byte-sweep", Space: "every byte value 0..255 at each syntactic position of 25 canonical vectors", Share: 1,
+			Run: func(w *fw.W) { list(w, alpha.ByteSweepHTML()) }, Eval: eval},
+		{Name: "count-sweep", Space: "5 vectors preceded by k copies of each of 5 units for every k in 0..300, in 3 breakout forms", Share: 1,
+			Run: func(w *fw.W) { list(w, alpha.CountSweepHTML()) }, Eval: eval},
 	}
+}
+
+// lenVectorsHTML: the members of the length family that are canonical vectors (must be detected).
+func lenVectorsHTML() []string {
+	htmlLists()
+	var ev []string
+	for _, e := range hEvents {
+		ev = append(ev, e.Name)
+	}
+	out := alpha.LenHTML(ev)
+	for _, s := range alpha.LenHTML2() {
+		if strings.Contains(s, " onerror=") || strings.HasPrefix(s, "<script") {
+			out = append(out, s)
+		}
+	}
+	return out
+}
+
+// special5Late: the four five-token patterns of the folder with each slot filled by every token that is
+// (or is rewritten into) the required class - including tokens that only become members after a
+// later rule fired (IN -> bareword/operator, backslash -> number, USER( -> function) - followed by
+// every continuation of up to two core tokens.
+func special5Late() []string {
+	num := []string{"1 ", "\\ ", "0x1 ", "1.5 "}
+	word := []string{"foo ", "in ", "`` ", "`a` ", "user ", "not in "}
+	op := []string{"= ", "+ ", "like ", "in "}
+	pats := [][][]string{
+		{num, append(append([]string{}, op...), ", "), {"( "}, num, {") "}},
+		{word, op, {"( "}, append(append([]string{}, word...), num...), {") "}},
+		{num, {") "}, {", "}, {"( "}, num},
+		{word, {") "}, op, {"( "}, word},
+	}
+	var out []string
+	for _, p := range pats {
+		var rec func(i int, cur string)
+		rec = func(i int, cur string) {
+			if i == len(p) {
+				out = append(out, cur)
+				for _, a := range alpha.S3core {
+					out = append(out, cur+a)
+					for _, b := range []string{"1 ", "foo ", "union ", "select ", ", ", "( ", ") ", "+ ", "/**/ "} {
+						out = append(out, cur+a+b)
+					}
+				}
+				return
+			}
+			for _, t := range p[i] {
+				rec(i+1, cur+t)
+			}
+		}
+		rec(0, "")
+	}
+	return out
 }
